@@ -180,3 +180,95 @@ Proof.
   pose proof (G _ _ _ Ha Hx x eq_refl) as G1. pose proof (G _ _ _ Hb Hy y eq_refl) as G2.
   rewrite G1 in G2. inversion G2. reflexivity.
 Qed.
+
+(* ---------- bodies that may throw ---------- *)
+
+Definition proj (s : tstate) : rstate := {| cache := t_cache s; execs := t_done s |}.
+
+Lemma exec_import_t_proj s i th s' v :
+  exec_import_t s (i, th) = (s', v) ->
+  exec_import (proj s) i = (proj s', v) \/ (proj s' = proj s /\ v = None).
+Proof.
+  unfold exec_import_t, exec_import, proj. cbn [cache execs].
+  destruct (nth_error (t_cache s) i) as [[x|]|] eqn:E; intro H.
+  - inversion H; subst. left. reflexivity.
+  - destruct th; inversion H; subst; cbn [t_cache t_done].
+    + right. split; reflexivity.
+    + left. reflexivity.
+  - inversion H; subst. left. reflexivity.
+Qed.
+
+Lemma exec_imports_t_ok evs : forall s s' vs,
+  cache_ok (proj s) -> exec_imports_t s evs = (s', vs) ->
+  cache_ok (proj s') /\
+  (forall j x, nth_error (t_cache s) j = Some (Some x) -> nth_error (t_cache s') j = Some (Some x)) /\
+  Forall2 (fun e v => forall x, v = Some x -> nth_error (t_cache s') (fst e) = Some (Some x)) evs vs.
+Proof.
+  induction evs as [|[i th] r IH]; intros s s' vs Hok H; cbn [exec_imports_t] in H.
+  - inversion H; subst. split; [exact Hok | split; [auto | constructor]].
+  - destruct (exec_import_t s (i, th)) as [s1 v] eqn:E1. destruct (exec_imports_t s1 r) as [s2 vs2] eqn:E2.
+    inversion H; subst; clear H.
+    destruct (exec_import_t_proj _ _ _ _ _ E1) as [P|[P Hv]].
+    + destruct (exec_import_ok _ _ _ _ Hok P) as [Hok1 [_ [Hv Hkeep1]]].
+      destruct (IH _ _ _ Hok1 E2) as [Hok2 [Hkeep2 Hf]].
+      split; [exact Hok2 | split].
+      * intros j x Hj. apply Hkeep2. apply (Hkeep1 j x). exact Hj.
+      * constructor; [|exact Hf]. intros x Hx. apply Hkeep2. apply (Hv x Hx).
+    + assert (Hok1: cache_ok (proj s1)) by (rewrite P; exact Hok).
+      destruct (IH _ _ _ Hok1 E2) as [Hok2 [Hkeep2 Hf]].
+      assert (Hc: t_cache s1 = t_cache s) by (unfold proj in P; inversion P; reflexivity).
+      split; [exact Hok2 | split].
+      * intros j x Hj. apply Hkeep2. rewrite Hc. exact Hj.
+      * constructor; [|exact Hf]. intros x Hx. subst v. discriminate.
+Qed.
+
+(* whatever bodies throw: a body returns at most once per module, and all imports of a module
+   that give a value give the same object *)
+Theorem body_completes_at_most_once n evs s vs :
+  exec_imports_t (init_tstate n) evs = (s, vs) ->
+  NoDup (t_done s) /\
+  (forall a b i t1 t2 x y, nth_error evs a = Some (i, t1) -> nth_error evs b = Some (i, t2) ->
+                     nth_error vs a = Some (Some x) -> nth_error vs b = Some (Some y) -> x = y).
+Proof.
+  intros H.
+  destruct (exec_imports_t_ok _ _ _ _ (cache_ok_init n : cache_ok (proj (init_tstate n))) H) as [[Hnd _] [_ Hf]].
+  split; [exact Hnd|].
+  assert (G: forall k e v, nth_error evs k = Some e -> nth_error vs k = Some v ->
+                           forall x, v = Some x -> nth_error (t_cache s) (fst e) = Some (Some x)).
+  { clear -Hf. induction Hf as [|e0 v0 l l' Hxy Hf IH]; intros k e v H1 H2; destruct k; simpl in *; try discriminate.
+    - inversion H1; inversion H2; subst. exact Hxy.
+    - eapply IH; eassumption. }
+  intros a b i t1 t2 x y Ha Hb Hx Hy.
+  pose proof (G _ _ _ Ha Hx x eq_refl) as G1. pose proof (G _ _ _ Hb Hy y eq_refl) as G2.
+  cbn [fst] in *. rewrite G1 in G2. inversion G2. reflexivity.
+Qed.
+
+(* no body throws: every start is a return, the body runs at most once *)
+Lemma no_throw_runs_done evs : forall s s' vs,
+  forallb (fun e => negb (snd e)) evs = true -> t_runs s = t_done s ->
+  exec_imports_t s evs = (s', vs) -> t_runs s' = t_done s'.
+Proof.
+  induction evs as [|[i th] r IH]; intros s s' vs Hn Hs H; cbn [exec_imports_t] in H.
+  - inversion H; subst. exact Hs.
+  - cbn [forallb snd] in Hn. apply andb_prop in Hn as [Hth Hn]. destruct th; [discriminate|].
+    destruct (exec_import_t s (i, false)) as [s1 v] eqn:E1. destruct (exec_imports_t s1 r) as [s2 vs2] eqn:E2.
+    inversion H; subst; clear H. apply (IH s1 s' vs2 Hn); [|exact E2].
+    unfold exec_import_t in E1. destruct (nth_error (t_cache s) i) as [[x|]|]; inversion E1; subst; cbn [t_runs t_done];
+      [exact Hs | rewrite Hs; reflexivity | exact Hs].
+Qed.
+
+Theorem body_at_most_once_no_throw n evs s vs :
+  forallb (fun e => negb (snd e)) evs = true ->
+  exec_imports_t (init_tstate n) evs = (s, vs) -> NoDup (t_runs s).
+Proof.
+  intros Hn H. rewrite (no_throw_runs_done evs (init_tstate n) s vs Hn (eq_refl : t_runs (init_tstate n) = t_done (init_tstate n)) H).
+  exact (proj1 (body_completes_at_most_once _ _ _ _ H)).
+Qed.
+
+(* the full statement "a body executes at most once" is false of the implementation when bodies throw *)
+Theorem body_at_most_once_refuted :
+  exists n evs s vs, exec_imports_t (init_tstate n) evs = (s, vs) /\ ~ NoDup (t_runs s).
+Proof.
+  exists 1%nat, [(0%nat, true); (0%nat, true)]. eexists. eexists. split; [vm_compute; reflexivity|].
+  intro H. inversion H as [|x l Hin _]; subst. apply Hin. left. reflexivity.
+Qed.
